@@ -10,6 +10,8 @@ import Driver.Common
 import QlibcModel.Seq.ListModel
 import QlibcModel.Seq.VectorModel
 import QlibcModel.Seq.Fault
+import QlibcModel.Seq.Inv
+import QlibcModel.Seq.InvVector
 open Qlibc Qlibc.Seq
 
 namespace Driver.Seq
@@ -27,6 +29,17 @@ def showStr (r : DataRes) : String :=
   match r.1 with
   | some d => s!"str {hx (cstr d)}"
   | none => s!"null {r.2.name}"
+
+/-- one entry of the `inv` line: `name=result:errno` -/
+def showInvRes : Spec.Res → String
+  | .bool r => (if r.1 then "true" else "false") ++ ":" ++ r.2.name
+  | .data r => (match r.1 with | some d => "data" ++ hx d | none => "null") ++ ":" ++ r.2.name
+  | .nat n => s!"{n}:0"
+  | .fault f => faultStr f
+  | _ => "?"
+
+def showInv (log : List (String × Spec.Res)) : String :=
+  "inv" ++ String.join (log.map fun e => " " ++ e.1 ++ "=" ++ showInvRes e.2)
 
 def int? (s : String) : Option Int := s.toInt?
 def nat? (s : String) : Option Nat := s.toNat?
@@ -123,6 +136,7 @@ def stepList (plan : Plan) (l : QList) (c : QList.Cursor) (ws : List String) : O
     match l.walk with
     | .ok ds => same ("walk" ++ String.join (ds.map fun d => " " ++ hx d) ++ " end ENOENT")
     | .error f => same (faultStr f)
+  | ["inv"] => let r := l.inv; some (.list r.st c, showInv r.log)
   | ["reset"] => some (.list l {}, "ok")
   | ["next", nm] =>
     match l.getNextF plan c (flag nm) with
@@ -166,6 +180,7 @@ def stepQueue (plan : Plan) (q : QQueue) (ws : List String) : Option (St × Stri
     let i ← int? i
     let r := q.getAtF plan i (flag nm)
     same (al r.2 ++ showData r.1)
+  | ["inv"] => let r := q.inv; some (.queue r.st, showInv r.log)
   | ["size"] => same s!"n {q.size}"
   | ["clear"] => some (.queue q.clear, al 0 ++ "ok")
   | _ => none
@@ -206,6 +221,7 @@ def stepStack (plan : Plan) (q : QStack) (ws : List String) : Option (St × Stri
     let i ← int? i
     let r := q.getAtF plan i (flag nm)
     same (al r.2 ++ showData r.1)
+  | ["inv"] => let r := q.inv; some (.stack r.st, showInv r.log)
   | ["size"] => same s!"n {q.size}"
   | ["clear"] => some (.stack q.clear, al 0 ++ "ok")
   | _ => none
@@ -224,6 +240,11 @@ def stepGrow (plan : Plan) (g : QGrow) (ws : List String) : Option (St × String
     let d ← optBytes h
     let v ← int? v
     boolF (g.addStrfF plan (cstr d ++ [0x3d] ++ fmtInt v))
+  | ["addstrfs", h] => do
+    -- addstrf(grow, "%s", str): the formatted string is the argument itself
+    let d ← optBytes h
+    boolF (g.addStrfF plan (cstr d))
+  | ["inv"] => let r := g.inv; some (.grow r.st, showInv r.log)
   | ["size"] => same s!"n {g.size}"
   | ["datasize"] => same s!"n {g.datasize}"
   | ["toarray"] =>
@@ -357,6 +378,7 @@ def stepVecOp (plan : Plan) (st : VSt) (v : Vec) (ws : List String) : Option (VS
     match v.walk with
     | .ok ds => same ("walk" ++ String.join (ds.map fun d => " " ++ hx d) ++ " end ENOENT")
     | .error f => same (faultStr f)
+  | ["inv"] => let r := v.inv; upd r.st (showInv r.log)
   | ["reset"] => some ({ st with c := {} }, "ok")
   | ["next", nm] =>
     match v.getNextF plan st.c (flag nm) with
